@@ -147,7 +147,12 @@ int main(int argc, char **argv) {
                   witness().vec("x", vv(x)).vec("x_ref", vv(xref)).d("projected_gradient_norm", gn).d("tolerance", gtol));
     // (3) the minimiser itself (sensitivity cond + cond^2 * relative residual)
     double rr = (double)res.norm() / std::max(nA * std::max(nx, 1e-300), 1e-300);
-    double xtol = 1e-11 * (condAZ + condAZ * condAZ * rr) * std::max(xref.norm(), nx) + 1e-13 * nb / s2(s2.size() - 1);
+    // + sensitivity to the null-space basis itself: Z is known to eps*cond(B) only, and an error dZ moves x = Z z by
+    //   |z| (|dZ| + |A||dZ| / sigma_min(AZ))  (the KKT conditions above are what the property states; this third check is
+    //   a cross-check and must not demand more than the data determine)
+    double condB = sv(0) / sv(p - 1);
+    double xtol = 1e-11 * (condAZ + condAZ * condAZ * rr) * std::max(xref.norm(), nx) + 1e-13 * nb / s2(s2.size() - 1) +
+                  1e-15 * condB * (1.0 + nA / s2(s2.size() - 1)) * std::max(xref.norm(), nx);
     if (!((x - xref).norm() <= xtol))
       R.violation(std::string("qrsolve/") + famname + "/not-the-minimiser", "x differs from Z (AZ)^+ b",
                   witness().vec("x", vv(x)).vec("x_ref", vv(xref)).d("diff", (x - xref).norm()).d("tolerance", xtol));
